@@ -135,10 +135,11 @@ def parse_template(text, base_dir='.'):
                 sec = []
                 cur['loops'][int(m.group(1))] = dict(label=m.group(2), lines=sec)
             elif kw == 'desugar-for':
-                m = re.match(r'(\d+)\s+(\w+)$', rest)
+                m = re.match(r'(\d+)\s+(\w+)(\s+plain)?$', rest)
                 if not m:
                     raise TemplateError('line %d: bad desugar-for directive' % ln)
-                cur['desugar'][int(m.group(1))] = m.group(2)
+                # `plain`: the loop expression already is the iterator (a type with an inherent `next`): no IntoIterator::into_iter call
+                cur['desugar'][int(m.group(1))] = m.group(2) + ('!' if m.group(3) else '')
                 sec = None
             elif kw in ('loopbody', 'preloop'):
                 m = re.match(r'(\d+)$', rest)
@@ -424,9 +425,12 @@ def extract(node, variant, report):
                     if kw != 'for' or in_pos < 0:
                         raise TemplateError('desugar-for on a loop that is not `for .. in`')
                     itn = node['desugar'][k]
+                    plain = itn.endswith('!')
+                    itn = itn.rstrip('!')
                     pat = text[kw_pos + 3:in_pos].strip()
                     expr = text[in_pos + 2:bopen].strip()
-                    rep = 'let mut %s = IntoIterator::into_iter(%s);\n%s\nloop\n%s\n{ let %s = match %s.next() { Some(v__) => v__, None => break };\n%s\n' % (itn, expr, pre, inv, pat, itn, body)
+                    init = expr if plain else 'IntoIterator::into_iter(%s)' % expr
+                    rep = 'let mut %s = %s;\n%s\nloop\n%s\n{ let %s = match %s.next() { Some(v__) => v__, None => break };\n%s\n' % (itn, init, pre, inv, pat, itn, body)
                     edits.append((kw_pos, bopen + 1, rep, 'R10'))
                     rule('R10')
                     continue
